@@ -819,16 +819,47 @@ def call_method(I, recv, name, args, kwargs, node):
                 return Choice([call_method(I, recv, name, [x] + list(args[1:]), kwargs, node) for x in k.alts])
             return Top("dict.get with unknown key")
         if name == "update":
-            other = args[0] if args else DictS(OrderedDict(kwargs))
+            other = args[0] if args else DictS()
             if isinstance(other, DictS):
                 recv.items.update(other.items)
-                return Const(None)
+                for k_ in other.items:
+                    if k_ not in other.optional:
+                        recv.optional.discard(k_)
+            else:
+                for item in seq_elts(I, other, node):
+                    if isinstance(item, (TupS, ListLit)) and len(item.elts) == 2 and isinstance(item.elts[0], Const):
+                        recv.items[item.elts[0].v] = item.elts[1]
+                        recv.optional.discard(item.elts[0].v)
+                    else:
+                        raise ShapeError(f"dict.update with an entry that is not a (constant key, value) pair: {item!r:.60}")
+            for k_, v_ in kwargs.items():
+                recv.items[k_] = v_
+                recv.optional.discard(k_)
+            return Const(None)
+        if name == "clear":
+            recv.items.clear()
+            recv.optional.clear()
+            return Const(None)
+        if name == "popitem":
+            if not recv.items:
+                raise _Raise("KeyError: popitem(): dictionary is empty", ["KeyError", "LookupError", "Exception", "BaseException", "object"])
+            last = kwargs.get("last", args[0] if args else Const(True))
+            k_ = next(reversed(recv.items)) if (not isinstance(last, Const) or last.v) else next(iter(recv.items))
+            return TupS([Const(k_), recv.items.pop(k_)])
+        if name == "move_to_end" and args and isinstance(args[0], Const) and args[0].v in recv.items:
+            last = kwargs.get("last", args[1] if len(args) > 1 else Const(True))
+            recv.items.move_to_end(args[0].v, last=bool(last.v) if isinstance(last, Const) else True)
+            return Const(None)
         if name == "setdefault":
             k = args[0]
+            if isinstance(k, TupS) and all(isinstance(x, Const) for x in k.elts):
+                k = Const(tuple(x.v for x in k.elts))
             if isinstance(k, Const):
                 if k.v not in recv.items:
                     recv.items[k.v] = args[1] if len(args) > 1 else Const(None)
                 return recv.items[k.v]
+        if name in ("update", "setdefault", "pop", "popitem", "clear", "move_to_end", "__setitem__", "__delitem__"):
+            raise ShapeError(f"dict.{name} in a form the interpreter does not model (the mapping would be changed in a way that is not tracked)")
         return Top(f"dict.{name}")
     if isinstance(recv, (ListLit,)):
         if name == "append":
@@ -843,6 +874,28 @@ def call_method(I, recv, name, args, kwargs, node):
             for i, x in enumerate(recv.elts):
                 if isinstance(x, Const) and x.v == args[0].v:
                     return Const(i)
+        if name == "insert" and len(args) == 2 and isinstance(args[0], Const) and isinstance(args[0].v, int):
+            recv.elts.insert(args[0].v, args[1])
+            return Const(None)
+        if name == "pop" and (not args or (isinstance(args[0], Const) and isinstance(args[0].v, int))):
+            try:
+                return recv.elts.pop(args[0].v if args else -1)
+            except IndexError:
+                raise _Raise("IndexError: pop from empty list / index out of range", ["IndexError", "LookupError", "Exception", "BaseException", "object"])
+        if name == "reverse" and not args:
+            recv.elts.reverse()
+            return Const(None)
+        if name == "clear" and not args:
+            del recv.elts[:]
+            return Const(None)
+        if name == "sort":
+            new = builtin(I, "sorted", [recv], kwargs, node)
+            if isinstance(new, ListLit):
+                recv.elts[:] = new.elts
+                return Const(None)
+            raise ShapeError("list.sort() on elements whose order is not known")
+        if name in ("remove", "insert", "pop", "sort", "reverse", "clear", "__setitem__", "__delitem__"):
+            raise ShapeError(f"list.{name} in a form the interpreter does not model (the list would be changed in a way that is not tracked)")
         return Top(f"list.{name}")
     import re as _re
     if isinstance(recv, Const) and isinstance(recv.v, _re.Pattern):
